@@ -135,6 +135,26 @@ def build_coq(status):
     status["coq"] = coq
 
 
+def extract_closure(d, top):
+    """modules (without .v) that `top` transitively requires, from coqdep"""
+    import re
+    vs = sorted(os.path.basename(f) for f in glob.glob(os.path.join(d, "*.v")))
+    rc, dep = sh("coqdep -Q . '' " + " ".join(vs), cwd=d)
+    deps = {}
+    for line in dep.split("\n"):
+        m = re.match(r"(\S+)\.vo .*?: (.*)", line)
+        if m:
+            deps[m.group(1)] = set(x[:-3] for x in m.group(2).split() if x.endswith(".vo"))
+    seen, stack = set(), [top[:-2]]
+    while stack:
+        n = stack.pop()
+        for x in deps.get(n, ()):
+            if x not in seen:
+                seen.add(x)
+                stack.append(x)
+    return seen
+
+
 def prepare(force=False, verbose=False):
     os.makedirs(BIN, exist_ok=True)
     lock = open(os.path.join(WORK, ".lock"), "w")
@@ -183,7 +203,10 @@ def prepare(force=False, verbose=False):
         # extraction + driver
         odir = os.path.join(WORK, "ocaml")
         os.makedirs(odir, exist_ok=True)
-        if not status["coq"]["main"]["missing"]:
+        # the driver needs only the files Extract.v depends on (not the proofs, not the ties)
+        need = extract_closure(os.path.join(COQ, "main"), "Extract.v")
+        blocked = sorted(set(status["coq"]["main"]["missing"]) & need)
+        if not blocked:
             rc, out = sh("timeout 600 coqc -Q %s '' %s" % (os.path.join(COQ, "main"), os.path.join(COQ, "main", "Extract.v")), cwd=odir,
                          log=os.path.join(WORK, "extract.log"))
             if rc == 0:
@@ -195,7 +218,7 @@ def prepare(force=False, verbose=False):
                 status["errors"].append("extraction/driver build failed: " + out[-2000:])
         else:
             status["driver"] = 1
-            status["errors"].append("model does not compile: " + ",".join(status["coq"]["main"]["missing"]))
+            status["errors"].append("model does not compile: " + ",".join(blocked))
         # walk model driver (C18)
         wdir = os.path.join(WORK, "ocamlw")
         os.makedirs(wdir, exist_ok=True)
